@@ -39,10 +39,15 @@ def FixedPointT.init (integerType : IntT) (fractionalBits : Nat := 5) : FixedPoi
 def fixedPointInteger : FixedPointT := FixedPointT.init .i32
 
 /-- `FixedPoint.send` (basic.py:124-125): `self.integer_type.send(int(value * self.denominator))`
-for the value `p / q` (`q > 0`, exact arithmetic — multiplying a binary float by a power of two is
-exact; `int()` truncates toward zero). The integer type's own range check is the only failure. -/
+for a finite Python FLOAT `value = p / q` (`q > 0`). Multiplying a binary64 by a power of two is
+exact unless the product reaches `2^1024`, where it becomes `inf` and `int(inf)` raises
+`OverflowError` (`Err.other`); otherwise `int()` truncates the exact product toward zero and the
+integer type's own range check (`struct.error`) is the only failure. (For a Python `int` value the
+product is exact and the first branch does not exist.) -/
 def FixedPointT.send (cc : CustomCodec) (fp : FixedPointT) (p q : Int) : Except Err Bytes :=
-  encode cc (.int fp.integerType) (.int (Int.tdiv (p * (fp.denominator : Int)) q))
+  let n := p * (fp.denominator : Int)
+  if (2 : Int) ^ 1024 * q ≤ n ∨ (2 : Int) ^ 1024 * q ≤ -n then .error .other
+  else encode cc (.int fp.integerType) (.int (Int.tdiv n q))
 
 /-- `FixedPoint.read` (basic.py:121-122): `self.integer_type.read(file_object) / self.denominator`,
 returned as the exact fraction `(numerator, denominator)` (Python rounds this quotient to the nearest
@@ -53,6 +58,13 @@ def FixedPointT.read (cc : CustomCodec) (fp : FixedPointT) (bs : Bytes) :
   match v with
   | .int w => pure ((w, (fp.denominator : Int)), r)
   | _ => .error .type
+
+/-- every `(base, bits)` of a `.fixed` code occurring in a wire type (used to read the generated
+packet layouts) -/
+def fixedCodes : WType → List (IntT × Nat)
+  | .fixed b n => [(b, n)]
+  | .array _ t => fixedCodes t
+  | _ => []
 
 /-! ## UUID (basic.py:303-310, CPython `uuid.UUID`) -/
 
@@ -315,5 +327,57 @@ where
     | [], [] => true
     | a :: as, b :: bs => valueBeq a b && listBeq as bs
     | _, _ => false
+
+/-! ## checks of one row of the live probe tables (`Generated/WireFormats.lean`)
+
+Boolean, so that a whole table is checked by kernel evaluation; `cc` is the custom codec (none of
+the probed classes uses it). -/
+
+/-- (class, value sent, live bytes or error, live value read back from `bytes ++ [aa, bb]` — from
+`bytes` alone for `TrailingByteArray`): the model code of the class produces the same bytes/error and
+reads the same value back, leaving exactly the appended tail. -/
+def scalarProbeOk (cc : CustomCodec) (row : String × Value × Except Err Bytes × Option Value) : Bool :=
+  match classWType row.1 with
+  | none => false
+  | some t =>
+    (encode cc t row.2.1 == row.2.2.1) &&
+    match row.2.2.1, row.2.2.2 with
+    | .ok bs, some back =>
+      let tail : Bytes := if t == .trailing then [] else [0xaa, 0xbb]
+      (match decode cc t (bs ++ tail) with
+        | .ok (v, r) => valueBeq v back && r == tail
+        | .error _ => false)
+    | .ok _, none => false
+    | .error _, back => back.isNone
+
+/-- (binary64 pattern x, live `Double.send`, live pattern read back, for finite x the sign and
+`|value|·2^1074` reported by `float.as_integer_ratio`) -/
+def doubleProbeOk (cc : CustomCodec) (row : Nat × Except Err Bytes × Nat × Option (Bool × Nat)) : Bool :=
+  (doubleSend cc row.1 == row.2.1) &&
+  (match row.2.1 with
+    | .ok bs => doubleRead cc bs == .ok (row.2.2.1, [])
+    | .error _ => false) &&
+  (row.2.2.1 == row.1) &&
+  (if row.1 % 2 ^ 63 / 2 ^ 52 = 2047 then row.2.2.2.isNone
+   else row.2.2.2 == some (decide (row.1 / 2 ^ 63 = 1), f64Mag (row.1 % 2 ^ 63)))
+
+/-- (integer class, fractional_bits, live denominator, p, q, live `FixedPoint(cls, bits).send(p/q)`) -/
+def fixedSendProbeOk (cc : CustomCodec)
+    (row : String × Nat × Nat × Int × Int × Except Err Bytes) : Bool :=
+  match classIntT row.1 with
+  | none => false
+  | some base =>
+    ((FixedPointT.init base row.2.1).denominator == row.2.2.1) &&
+    ((FixedPointT.init base row.2.1).send cc row.2.2.2.1 row.2.2.2.2.1 == row.2.2.2.2.2)
+
+/-- (integer class, fractional_bits, bytes, reduced fraction num/den of the live
+`FixedPoint(cls, bits).read(bytes ++ [9])`): equal as fractions, `[9]` left unread -/
+def fixedReadProbeOk (cc : CustomCodec) (row : String × Nat × Bytes × Int × Nat) : Bool :=
+  match classIntT row.1 with
+  | none => false
+  | some base =>
+    match (FixedPointT.init base row.2.1).read cc (row.2.2.1 ++ [9]) with
+    | .ok ((num, den), r) => (r == [9]) && (num * (row.2.2.2.2 : Int) == row.2.2.2.1 * den)
+    | .error _ => false
 
 end PyCraft.C02X
